@@ -10,7 +10,7 @@ CHECKS = {
     note="Bounded: <=4 nodes exhaustively, <=12 randomly. Trusted: TLC, Json module, harness graph construction via public API.", ref="6 (C20)"),
 }
 CHECKS["C05"] = dict(level="exploration", technique="TLA+ TypeLang operators (Shape/ShapeOfTs/ShapeOfZod) as oracle; TLC bounded-exhaustive enumeration of Rust type expressions replayed through the real CLI; parsed output trace-validated by TLC",
-    text="Every Rust type expression TLC enumerates from Gen_Types (5 leaf classes under <=2 (quick) / <=3 (thorough) of 21 one-hole contexts, binary nodes with composite arguments, simulated deeper chains) is generated at each of the five translation sites in both modes by the real CLI; TLC judges each observation with ShapeEq(Shape(rust), ShapeOfTs|ShapeOfZod(emitted)). Bounded-exhaustive exploration with a specification oracle, not a proof.",
+    text="Every Rust type expression TLC enumerates from Gen_Types (5 leaf classes under <=2 (quick) / <=3 (thorough) of 22 one-hole contexts, binary nodes with composite arguments, simulated deeper chains) is generated at each of the five translation sites in both modes by the real CLI; TLC judges each observation with ShapeEq(Shape(rust), ShapeOfTs|ShapeOfZod(emitted)). Bounded-exhaustive exploration with a specification oracle, not a proof.",
     note="Trusted: the TS-subset parser, TLC, the reading of the README type table in TypeLang.tla. Only minimal rejected expressions are reported.", ref="6 (C05)")
 CHECKS["C10"] = dict(level="exploration", technique="TLA+ TypeLang operators (ShapeOfZod vs ShapeOfTs, ZodMatchesPlain) as oracle over TLC-enumerated types generated in both modes by the real CLI; trace validation by TLC",
     text="For every TLC-enumerated Rust type at the parameter and field sites, the Zod-mode schema and the plain-mode type of the same project are parsed and TLC checks that they denote the same structure (Option as omittable); declared names and key sets of a feature project are compared likewise. Bounded-exhaustive exploration with a specification oracle.",
